@@ -21,11 +21,13 @@ def strip (cfg : Cfg) (s : Str) (chars : Option Str) : Str := stripBy (stripClas
 def lstrip (cfg : Cfg) (s : Str) (chars : Option Str) : Str := lstripBy (stripClass cfg chars) s
 def rstrip (cfg : Cfg) (s : Str) (chars : Option Str) : Str := rstripBy (stripClass cfg chars) s
 
-/-- `s.replace(old, new, count)` -/
-def replace (s old new : Str) (count : Int) : Str := pyReplace s old new (limitOf count)
+/-- `s.replace(old, new, count)`: `count` is converted to a C `Py_ssize_t` first -/
+def replace (s old new : Str) (count : Int) : Except Py.Err Str :=
+  if Py.ssizeOk count then .ok (pyReplace s old new (limitOf count)) else .error .overflowError
 
 /-- `s.split(sep, maxsplit)` -/
 def split (cfg : Cfg) (s : Str) (sep : Option Str) (maxsplit : Int) : Except Py.Err (List Str) :=
+  if !Py.ssizeOk maxsplit then .error .overflowError else
   match sep with
   | none => .ok (splitWs cfg.isSpace s (limitOf maxsplit))
   | some [] => .error .valueError
@@ -33,6 +35,7 @@ def split (cfg : Cfg) (s : Str) (sep : Option Str) (maxsplit : Int) : Except Py.
 
 /-- `s.rsplit(sep, maxsplit)` -/
 def rsplit (cfg : Cfg) (s : Str) (sep : Option Str) (maxsplit : Int) : Except Py.Err (List Str) :=
+  if !Py.ssizeOk maxsplit then .error .overflowError else
   match sep with
   | none => .ok (rsplitWs cfg.isSpace s (limitOf maxsplit))
   | some [] => .error .valueError
